@@ -58,6 +58,7 @@ func writeReplay(eng *Engine, outDir, prop string, o *Obligation) string {
 }
 
 func writeEvidence(vd, prop, tier string, seed int, cfg *PropCfg, results []*FnResult, obs []*Obligation, wall float64, note string, known []string) {
+	vd = outBase()
 	os.MkdirAll(filepath.Join(vd, "evidence"), 0o755)
 	nOb, nDis := 0, 0
 	byBackend := map[string]int{}
